@@ -1,7 +1,241 @@
-//! Replay of further engines (added with them).
+//! Replay of the remaining engines: every case is re-executed twice on the current tree.
+use crate::refmodel::{Graph, RefAnswers, Sem, ALL_SEMS};
+use crate::staticq::{QKind, Query};
+use crate::universe::Presentation;
 use serde_json::Value;
 
-pub fn run(engine: &str, _prop: &str, _path: &str, _v: &Value) -> i32 {
-    eprintln!("replay: unknown engine {:?}", engine);
-    2
+fn verdict(prop: &str, path: &str, runs: Vec<Option<String>>) -> i32 {
+    for (i, r) in runs.iter().enumerate() {
+        match r {
+            Some(m) => println!("run {}: deviation: {}", i + 1, m),
+            None => println!("run {}: no deviation", i + 1),
+        }
+    }
+    if runs.len() == 2 && runs[0].is_some() != runs[1].is_some() {
+        eprintln!("MACHINERY-ERROR: the two replays differ (uncontrolled nondeterminism)");
+        return 2;
+    }
+    if runs.iter().any(|r| r.is_some()) {
+        println!("VIOLATION property={} replay={}", prop, path);
+        1
+    } else {
+        println!("no deviation on the current tree");
+        0
+    }
+}
+
+fn sem_of(name: &str) -> Sem {
+    ALL_SEMS.iter().cloned().find(|s| s.name() == name).expect("unknown semantics")
+}
+
+fn kind_of(name: &str) -> QKind {
+    match name {
+        "SE" => QKind::SE,
+        "DC" => QKind::DC,
+        _ => QKind::DS,
+    }
+}
+
+pub fn run(engine: &str, prop: &str, path: &str, v: &Value) -> i32 {
+    let case = &v["case"];
+    let key = v["key"].as_str().unwrap_or("");
+    let twice = |f: &dyn Fn() -> Option<String>| vec![f(), f()];
+    match engine {
+        "store" => {
+            use crate::checks::c12::{check_last_step, Init, SOp};
+            let hist: Vec<SOp> = case["history"].as_array().unwrap().iter().map(SOp::from_json).collect();
+            let init = Init::from_name(case["init"].as_str().unwrap());
+            let is_string = case["label_type"].as_str() == Some("String");
+            println!("case: AAFramework<{}> from {} history {:?}", case["label_type"], init.name(), hist.iter().map(|o| o.short()).collect::<Vec<_>>());
+            let n = hist.iter().map(|o| match *o {
+                SOp::NewArg(a) | SOp::RemArg(a) => a,
+                SOp::NewAtt(a, b) | SOp::RemAtt(a, b) => a.max(b),
+            }).max().unwrap_or(1).max(1) as usize + 1;
+            let runs = twice(&|| {
+                // every prefix is checked (observers after every step)
+                for k in 0..=hist.len() {
+                    let r = if is_string {
+                        let labels: Vec<String> = ["a", "b", "c", "d"].iter().take(n.max(2)).map(|s| s.to_string()).collect();
+                        check_last_step("String", &labels, init, &hist[..k])
+                    } else {
+                        let labels: Vec<usize> = (1..=n.max(2)).collect();
+                        check_last_step("usize", &labels, init, &hist[..k])
+                    };
+                    if let Err(v) = r {
+                        return Some(v.message);
+                    }
+                }
+                None
+            });
+            verdict(prop, path, runs)
+        }
+        "reader" => {
+            use crate::checks::c13::{check_input, Format};
+            let bytes: Vec<u8> = case["bytes"].as_array().unwrap().iter().map(|b| b.as_u64().unwrap() as u8).collect();
+            let fmt = if case["format"].as_str() == Some("apx") { Format::Apx } else { Format::Iccma };
+            println!("case: {} reader, input {:?}", fmt.name(), String::from_utf8_lossy(&bytes));
+            let probes: Vec<&str> = if fmt == Format::Apx { vec!["a", "b", "a1", "_", "c", "1a", "", "arg"] } else { vec!["0", "1", "2", "3", "4", "-1", "x", ""] };
+            verdict(prop, path, twice(&|| check_input(fmt, &bytes, &probes).err().map(|(w, m)| format!("[{}] {}", w, m))))
+        }
+        "encoding" => {
+            use crate::checks::c10::{check_one, make, ALL_ENCS};
+            let g = Graph::from_json(&case["graph"]);
+            let name = case["encoder"].as_str().unwrap();
+            let e = *ALL_ENCS.iter().find(|e| e.name() == name).expect("unknown encoder");
+            let range = case["range"].as_bool().unwrap();
+            println!("case: encoder {} range={} on {} (a fresh encoder object; first another framework is encoded with it, as in the sweep)", name, range, g.describe());
+            verdict(prop, path, twice(&|| {
+                let enc = make(e);
+                // re-use as in the sweep: encode a threshold framework first
+                let warm = crate::universe::threshold_family().into_iter().find(|(n, _)| n == "prod32_5x2shared_v0").unwrap().1;
+                let _ = check_one(&warm, e, enc.as_ref(), range);
+                check_one(&g, e, enc.as_ref(), range).err().map(|(w, m)| format!("[{}] {}", w, m))
+            }))
+        }
+        "equivalence" => {
+            use crate::checks::c19::{check_graph, check_graph_reversed};
+            let g = Graph::from_json(&case["graph"]);
+            let p = case["presentation"].as_str().unwrap();
+            println!("case: EquivalencyComputer on {} [{}]", g.describe(), p);
+            verdict(prop, path, twice(&|| {
+                let r = match p {
+                    "dup" => check_graph(&g, Presentation::Dup),
+                    "compact" => check_graph(&g, Presentation::Compact),
+                    _ => check_graph_reversed(&g),
+                };
+                r.err().map(|(w, m)| format!("[{}] {}", w, m))
+            }))
+        }
+        "satobject" => {
+            use crate::checks::c15::{run_history, BackendKind, SatOp};
+            let hist: Vec<SatOp> = case["history"].as_array().unwrap().iter().map(SatOp::from_json).collect();
+            let b = if case["backend"].as_str() == Some("CadicalSolver") { BackendKind::Cadical } else { BackendKind::External };
+            println!("case: {} history {:?}", b.name(), hist.iter().map(|o| o.short()).collect::<Vec<_>>());
+            verdict(prop, path, twice(&|| run_history(b, &hist).err().map(|(s, w, m)| format!("step {} [{}] {}", s + 1, w, m))))
+        }
+        "reply" => {
+            use crate::checks::c16::{feed_reply, judge_reply};
+            let bytes: Vec<u8> = case["bytes"].as_array().unwrap().iter().map(|b| b.as_u64().unwrap() as u8).collect();
+            println!("case: reply {:?} for a 2-variable instance", String::from_utf8_lossy(&bytes));
+            verdict(prop, path, twice(&|| {
+                let o = feed_reply(&bytes);
+                println!("  observed {:?}", o);
+                judge_reply(&bytes, &o).map(|(w, m)| format!("[{}] {}", w, m))
+            }))
+        }
+        "exchange" => {
+            use crate::checks::c16_pipes::{expected_kinds, run_with_watchdog};
+            let child = case["child"].as_str().unwrap().to_string();
+            let pad = case["reply_bytes"].as_u64().unwrap() as usize;
+            let big = case["big_instance"].as_bool().unwrap_or(false);
+            println!("case: exchange with a child behaving '{}', reply {} bytes, big instance {}", child, pad, big);
+            verdict(prop, path, twice(&|| {
+                let exe = std::env::current_exe().unwrap();
+                let mut cmd = std::process::Command::new(exe);
+                cmd.args(["c16-scenario", &child, &pad.to_string(), if big { "1" } else { "0" }]);
+                let (done, kind, secs) = run_with_watchdog(cmd, std::time::Duration::from_secs(10));
+                println!("  terminated={} result={} after {:.2}s", done, kind, secs);
+                if !done {
+                    Some("the call did not return within 10 s".into())
+                } else if !expected_kinds(&child).contains(&kind.as_str()) {
+                    Some(format!("returned {}, expected one of {:?}", kind, expected_kinds(&child)))
+                } else {
+                    None
+                }
+            }))
+        }
+        "external" => {
+            let g = Graph::from_json(&case["graph"]);
+            println!("case: every problem on {} through the external backend (instances parsed strictly, answers judged)", g.describe());
+            verdict(prop, path, twice(&|| {
+                let acc = crate::checks::c16::external_sweep(&[("replay".to_string(), g.clone())], "replay_ext");
+                acc.violations.into_iter().find(|((p, _), _)| p == prop).map(|(_, (_, v))| v.message)
+            }))
+        }
+        "matrix" | "order" => {
+            let g = Graph::from_json(&case["graph"]);
+            let pres = Presentation::from_name(case["presentation"].as_str().unwrap_or("compact")).unwrap_or(Presentation::Compact);
+            println!("case: configuration matrix and query sequences on {} [{}]", g.describe(), pres.name());
+            verdict(prop, path, twice(&|| {
+                let v = crate::checks::c06::replay_graph(&g, pres, if g.n <= 2 { 3 } else { 2 }, g.n <= 2);
+                v.into_iter().find(|(k, _)| k == key).or_else(|| None).map(|(_, m)| m)
+            }))
+        }
+        "presentation" | "union" => {
+            let g = Graph::from_json(&case["graph"]);
+            println!("case: all presentations and unions of {}", g.describe());
+            verdict(prop, path, twice(&|| crate::checks::c11::replay_small(&g).into_iter().next().map(|(k, m)| format!("[{}] {}", k, m))))
+        }
+        "large" => {
+            let fam = case["family"].as_str().unwrap().to_string();
+            let size = case["size"].as_u64().unwrap() as usize;
+            println!("case: {}({}) in all presentations", fam, size);
+            verdict(prop, path, twice(&|| crate::checks::c11::replay_large(&fam, size).into_iter().next().map(|(k, m)| format!("[{}] {}", k, m))))
+        }
+        "threshold_union" => {
+            println!("case: unions of hybrid-threshold frameworks under every encoder");
+            verdict(prop, path, twice(&|| crate::checks::c11::replay_threshold().into_iter().next().map(|(k, m)| format!("[{}] {}", k, m))))
+        }
+        "cli" => {
+            use crate::checks::c05::{has_answer_line, judge_valid, run as run_proc, Invocation};
+            let bin: &'static str = if case["bin"].as_str().unwrap().ends_with("crustabri_iccma23") { crate::checks::c05::BIN_ICCMA } else { crate::checks::c05::BIN_SOLVE };
+            let args: Vec<String> = case["args"].as_array().unwrap().iter().map(|a| a.as_str().unwrap().to_string()).collect();
+            if let (Some(f), Some(content)) = (case["file"].as_str(), case["file_content"].as_array()) {
+                let bytes: Vec<u8> = content.iter().map(|b| b.as_u64().unwrap() as u8).collect();
+                if let Some(parent) = std::path::Path::new(f).parent() {
+                    let _ = std::fs::create_dir_all(parent);
+                }
+                let _ = std::fs::write(f, bytes);
+            }
+            let inv = Invocation { bin, args };
+            println!("case: {} {}", bin, inv.args.join(" "));
+            let exp = &case["expect"];
+            verdict(prop, path, twice(&|| {
+                let r = run_proc(&inv);
+                println!("  exit {:?} stdout {:?}", r.code, r.stdout);
+                let kind = exp["kind"].as_str().unwrap_or("malformed");
+                if kind == "malformed" || (kind == "valid_or_error" && r.code != Some(0)) || prop == "C17" {
+                    if r.code == Some(0) {
+                        return Some("exit status 0".into());
+                    }
+                    return has_answer_line(&r.stdout).map(|l| format!("answer line {:?} printed", l));
+                }
+                let g = Graph::from_json(&exp["graph"]);
+                let ra = RefAnswers::new(&g);
+                judge_valid(&ra, kind_of(exp["qkind"].as_str().unwrap()), sem_of(exp["sem"].as_str().unwrap()), exp["arg"].as_u64().map(|x| x as usize), exp["cert"].as_bool().unwrap(), exp["iccma"].as_bool().unwrap(), exp["logging"].as_bool().unwrap(), &r).err().map(|(w, m)| format!("[{}] {}", w, m))
+            }))
+        }
+        "external_fault" => {
+            use crate::checks::c16::external_factory;
+            let g = Graph::from_json(&case["graph"]);
+            let q = Query::from_json(&case["query"]);
+            let mode = case["mode"].as_str().unwrap().to_string();
+            let k = case["call"].as_u64().unwrap();
+            println!("case: {} {:?} on {} with the external solver failing ({}) at call {}", q.problem(), q.args, g.describe(), mode, k);
+            verdict(prop, path, twice(&|| {
+                let b = crate::universe::build_usize(&g, Presentation::Compact);
+                let dir = crate::checks::c16::scratch_dir("replay_fault");
+                let cnt = dir.join("cnt.txt");
+                let mark = dir.join("mark.txt");
+                let _ = std::fs::remove_file(&cnt);
+                let _ = std::fs::remove_file(&mark);
+                let opts = vec![format!("cnt={}", cnt.display()), format!("mark={}", mark.display()), format!("fail={}@{}", mode, k)];
+                let r = crate::choicesat::catch(|| crate::staticq::run_query(&b, &q, external_factory(opts)));
+                if !mark.exists() {
+                    println!("  the failure was not reached");
+                    return None;
+                }
+                r.ok().map(|o| format!("the query returned {}", o.describe()))
+            }))
+        }
+        "writer" => {
+            println!("case: writer checks are re-run as a whole (cheap): ./check C14");
+            let code = crate::checks::c14::run(crate::report::Tier::Quick);
+            code
+        }
+        other => {
+            eprintln!("replay: engine {:?} has no single-case replay; re-run the owning check (./check {})", other, prop);
+            2
+        }
+    }
 }
